@@ -20,6 +20,7 @@ K_SUPPORT = ['a3_varint_i16', 'a3_varint_i32', 'a3_varint_u32', 'a3_varint_i64',
 K_C11_W = ['c11_w_bool', 'c11_w_byte_i8', 'c11_w_i16', 'c11_w_i32', 'c11_w_i64', 'c11_w_double', 'c11_w_uuid', 'c11_w_field',
            'c11_w_containers', 'bnd_c11_w_bytes_le5']
 K_C11_R = ['c11_r_i8_bool_byte', 'c11_r_i16', 'c11_r_i32', 'c11_r_i64_double', 'c11_r_uuid']
+K_PB_MORE = ['pb_varint_chain', 'bnd_pb_merge_repeated_packed', 'bnd_pb_map_len_btree']
 K_PB = ['pb_varint_roundtrip', 'pb_varint_decode_total', 'pb_bool', 'pb_int32', 'pb_int64', 'pb_uint32', 'pb_uint64', 'pb_sint32', 'pb_sint64',
         'pb_fixed32', 'pb_sfixed32', 'pb_float', 'pb_fixed64', 'pb_sfixed64', 'pb_double']
 
@@ -30,15 +31,15 @@ PROPS = {
                 not_covered=NOT_GEN + '; ApplicationException::{encode,decode} not yet under contract'),
     'C04': dict(verus=THRIFT_UNITS, kani=K_C11_W, assumptions=A_COMMON,
                 not_covered=NOT_GEN + '; TLengthProtocolExt/TOutputProtocolExt closure helpers (field_len!, list_len, write_list, ...) not under contract; TLengthProtocol of TCompactInputProtocol not under contract'),
-    'C05': dict(verus=[], kani=K_PB, assumptions=A_COMMON[:1] + ['bytes 1.8.0 Buf for &[u8] / BufMut for &mut [u8] are exercised as compiled (not assumed)', 'format! on error paths is stubbed in the Kani harnesses (message text not modelled)'],
+    'C05': dict(verus=[], kani=K_PB + K_PB_MORE, assumptions=A_COMMON[:1] + ['bytes 1.8.0 Buf for &[u8] / BufMut for &mut [u8] are exercised as compiled (not assumed)', 'format! on error paths is stubbed in the Kani harnesses (message text not modelled)'],
                 not_covered='generated messages; repeated/packed/map/message/group/string/bytes codecs are not yet under a harness'),
-    'C06': dict(verus=[], kani=K_PB, assumptions=A_COMMON[:1] + ['format! on error paths is stubbed in the Kani harnesses'],
-                not_covered='generated messages and the field-type -> codec table of pilota-build (sint32/sint64 selection) are not covered in this revision'),
+    'C06': dict(verus=['pbgen'], kani=K_PB + ['bnd_pb_merge_repeated_packed'], assumptions=A_COMMON[:1] + ['format! on error paths is stubbed in the Kani harnesses'],
+                not_covered='generated messages: only the two match tables that select the codec per scalar type (lower_ty, ty_module) are covered, as verbatim fragments; repeated/map/oneof positions of the generator and map entry layout are not covered'),
     'C07': dict(verus=['skip', 'compact_skip'], kani=[], assumptions=A_COMMON,
                 not_covered='the contract proved for the recursive skipper is: depth 0 => Err, termination by depth, reported count == bytes consumed, exact size for every fixed-width type and for binary, Void/Stop rejected; element-by-element exactness of nested containers against a value grammar is not proved; async skipper and the iterative unchecked skipper are not under contract'),
     'C09': dict(verus=THRIFT_UNITS + ['skip', 'async_binary', 'async_binary_le', 'async_compact'], kani=['a3_varint_decode_total', 'rwext_read_i16', 'rwext_read_i32', 'rwext_read_i64', 'rwext_read_u64'], assumptions=A_COMMON,
                 not_covered=NOT_GEN + '; sync read_string/read_to_string (vec! allocation) not yet under contract; async skipper not under contract'),
-    'C10': dict(verus=['prost'], kani=['pb_varint_decode_total', 'pb_varint_roundtrip'], assumptions=A_COMMON[:1] + ['decode_varint_slice (unsafe, unrolled) enters Verus through its documented safety contract; Kani pb_varint_decode_total proves it on the real code', 'derive(Clone) of DecodeContext replaced by its field-wise expansion; core::cmp::min redirected to a usize wrapper'],
+    'C10': dict(verus=['prost'], kani=['pb_varint_decode_total', 'pb_varint_roundtrip', 'pb_varint_chain'], assumptions=A_COMMON[:1] + ['decode_varint_slice (unsafe, unrolled) enters Verus through its documented safety contract; Kani pb_varint_decode_total proves it on the real code', 'derive(Clone) of DecodeContext replaced by its field-wise expansion; core::cmp::min redirected to a usize wrapper'],
                 not_covered='decode_varint, decode_varint_slow, decode_key, check_wire_type, WireType::try_from, DecodeContext::{enter_recursion,limit_reached} are verified total (no panic, bounded consumption); skip_field (`break <value>` unsupported by Verus), merge_loop (FnMut closure), bytes/string/message/group/map merge and generated merge_field are not decided'),
     'C11': dict(verus=[], kani=K_C11_W + K_C11_R, assumptions=A_COMMON[:1] + ['the documented preconditions of the unchecked codec (window of the reported size; complete well-formed input) are the harness assumptions'],
                 not_covered='LinkedBytes variant and zero-copy insertion, unchecked read_field_begin/list/set/map_begin, read_bytes/read_faststr/get_bytes and the iterative skipper are not under a harness'),
@@ -46,7 +47,7 @@ PROPS = {
                     'A7 tokio AsyncReadExt::{read_u8,read_i8,read_i16[_le],read_i32[_le],read_i64[_le],read_f64[_le],read_exact} deliver the next bytes of the stream in order regardless of chunking or Pending wake-ups, or fail when the stream ends first (vf/units/_asyncrd.vu); the delivery-schedule quantifier of C12 is discharged by this assumption, not by pilota-side proof',
                     'D8: async fn -> fn, .await dropped: each awaited read is an atomic call'],
                 not_covered=NOT_GEN + '; the async skipper (TAsyncInputProtocol::skip_till_depth) is not under contract yet'),
-    'C18': dict(verus=[], kani=[h for h in K_PB if h not in ('pb_varint_roundtrip', 'pb_varint_decode_total')], assumptions=A_COMMON[:1],
+    'C18': dict(verus=[], kani=[h for h in K_PB if h not in ('pb_varint_roundtrip', 'pb_varint_decode_total')] + ['bnd_pb_merge_repeated_packed'], assumptions=A_COMMON[:1],
                 not_covered='only "singular scalars take the last occurrence" (merge into an arbitrary pre-existing value) is decided; repeated/map/oneof/embedded/unknown-field semantics are not'),
 }
 
@@ -56,12 +57,15 @@ def _k(kind='leaf', quick=True, bound='', timeout=None):
         d['timeout'] = timeout
     return d
 
-KANI_HARNESSES = {h: _k() for h in K_SUPPORT + K_C11_W + K_C11_R + K_PB}
+KANI_HARNESSES = {h: _k() for h in K_SUPPORT + K_C11_W + K_C11_R + K_PB + K_PB_MORE}
+KANI_HARNESSES['bnd_pb_merge_repeated_packed'] = _k(kind='bounded', quick=False, bound='existing vector of 1 element; packed run of 1..=2 one-byte varints then one unpacked element; fixed32 packed run of 1', timeout=1500)
+KANI_HARNESSES['bnd_pb_map_len_btree'] = _k(kind='bounded', bound='BTreeMap<u32,u32> with one entry, key/value < 128, tag 1..=15')
 for _h in ['pb_int64', 'pb_uint32', 'pb_uint64', 'pb_sint64', 'pb_int32']:
     KANI_HARNESSES[_h] = _k(quick=False)   # ~4 min each: thorough tier only
 KANI_HARNESSES['bnd_c11_w_bytes_le5'] = _k(kind='bounded', bound='payload length 0..=5, arbitrary content')
 
 # property -> [(regex on obligation name, replay program, args)]
 WITNESS = {
+    'C06': [(r'pbgen', 'replay_pb', [])],
     'C07': [(r'compact_skip', 'g4_compact_skip', [])],
 }
